@@ -96,6 +96,19 @@ pub fn run(tier: &str) -> i32 {
             }
         }
     }
+    // the bound struct (or a struct nested in it) shared with a var<private> / var<workgroup>, declared before or
+    // after the bound variable
+    {
+        let n0 = all.len();
+        for i in 0..n0 {
+            let k = &all[i].key;
+            let nested = k.contains("Inner") || k.contains("Deep");
+            if (thorough && i % 7 == 0) || k == "s1|vec4<f32>" || k == "s1|Inner" || k == "s1|array<Inner, 2>" || k == "s1|Deep" || (nested && i % 41 == 0) {
+                let v = sibling_variants(&all[i]);
+                all.extend(v);
+            }
+        }
+    }
     // universe: every member type representable by glam
     let progs: Vec<StructProg> = all
         .into_iter()
@@ -115,7 +128,7 @@ pub fn run(tier: &str) -> i32 {
         let p = &progs[i];
         rep.states += 1;
         rep.transitions += p.env.get(&p.root).members.len() as u64;
-        let forced = p.key.starts_with("attr|") || p.key.starts_with("named|") || (p.key.starts_with("alias-") && i % 5 == 0) || p.key.starts_with("rt") || (p.key.starts_with("io-host|") && i % 4 == 0) || p.key.contains("vec3<f32>|f32") || p.key.contains("mat3x3<f32>") && p.key.starts_with("s1");
+        let forced = p.key.starts_with("attr|") || p.key.starts_with("sibling-") || p.key.starts_with("named|") || (p.key.starts_with("alias-") && i % 5 == 0) || p.key.starts_with("rt") || (p.key.starts_with("io-host|") && i % 4 == 0) || p.key.contains("vec3<f32>|f32") || p.key.contains("mat3x3<f32>") && p.key.starts_with("s1");
         if !(i % stride == 0 || forced) {
             continue;
         }
@@ -127,7 +140,7 @@ pub fn run(tier: &str) -> i32 {
                 cases.push(ProbeCase { name, generated: text.clone(), probe_body: probe_for(p, uniform_legal(p)).unwrap(), probe_items: String::new(), files: vec![] });
             }
             Outcome::Panic(m) if ci == 1 && m.contains("Runtime-sized array") => rep.filtered("documented panic: runtime-sized array with bytemuck"),
-            other => rep.filtered(&format!("generator not Ok: {}", other.class())),
+            other => rep.generation_failed(format!("{}|{}", p.key, cfgs[ci].key()), &other.class(), &p.src, &cfgs[ci]),
         }
     }
     let results = probe::run_batch("C10", &cases, true);
